@@ -422,7 +422,7 @@ mk_env(void)
     g_vp         = vp;
     g_nr0        = v_numrecs;
     g_reclen     = (int32)v_len;
-#ifdef C03_RECLEN /* experiment / bounded variants: constant record geometry */
+#ifdef C03_RECLEN /* constant record geometry: numrecs * len is symbolic x symbolic otherwise */
     H4V_ASSUME(v_len == C03_RECLEN && v_HDFsize == 4 && v_szof == 4);
 #endif
     /* a _FillValue attribute the NC_findattr stub may hand out */
